@@ -557,6 +557,12 @@ fn spawn_async_ao_list_in_task'''),
         ('closing-brace-after-dollar-skipped-again', 'brush-core/src/expansion.rs', "        } else if c == '}' {\n            saw_closing_brace = true;", "        } else if c == '}' && !last_was_unescaped_dollar_sign {\n            saw_closing_brace = true;"),
         ('dollar-flag-ignores-escape', 'brush-core/src/expansion.rs', "last_was_unescaped_dollar_sign = !last_was_escape && c == '$';", "last_was_unescaped_dollar_sign = c == '$';"),
     ],
+    'U23': [
+        ('single-quoted-text-splittable', 'brush-core/src/expansion.rs', "            brush_parser::word::WordPiece::SingleQuotedText(s) => {\n                Expansion::from(ExpansionPiece::Unsplittable(s))", "            brush_parser::word::WordPiece::SingleQuotedText(s) => {\n                Expansion::from(ExpansionPiece::Splittable(s))"),
+        ('unquoted-text-unsplittable', 'brush-core/src/expansion.rs', "            brush_parser::word::WordPiece::Text(s) => {\n                Expansion::from(ExpansionPiece::Splittable(s))", "            brush_parser::word::WordPiece::Text(s) => {\n                Expansion::from(ExpansionPiece::Unsplittable(s))"),
+        ('tilde-result-via-string-conversion', 'brush-core/src/expansion.rs', "                Expansion::from(ExpansionPiece::Unsplittable(\n                    self.expand_tilde_expression(&tilde_expr)?.to_string(),\n                ))", "                Expansion::from(self.expand_tilde_expression(&tilde_expr)?.to_string())"),
+        ('field-from-piece-drops-it', 'brush-core/src/expansion.rs', "impl From<ExpansionPiece> for WordField {\n    fn from(piece: ExpansionPiece) -> Self {\n        Self(vec![piece])", "impl From<ExpansionPiece> for WordField {\n    fn from(piece: ExpansionPiece) -> Self {\n        Self(vec![ExpansionPiece::Splittable(String::new()), piece])"),
+    ],
     'U16': [
         ('tilde-not-flagged-at-start', 'brush-core/src/escape.rs', "    matches!(c, '#' | '~')", "    matches!(c, '#')"),
         ('bang-not-flagged', 'brush-core/src/escape.rs', "            | '!'\n", ""),
